@@ -3290,6 +3290,26 @@ stoCAlloc(unsigned code, ULong nbytes)
 }
 
 
+#ifdef ALDOR_VERIF
+/*
+ * Verification hook: with ALDOR_VERIF_GC=k:j in the environment, force a
+ * collection at every allocation whose ordinal is congruent to j modulo k.
+ */
+local void
+stoVerifMaybeGc(void)
+{
+	static long	k = -1, j = 0, count = 0;
+
+	if (k == -1) {
+		char *e = getenv("ALDOR_VERIF_GC");
+		k = 0;
+		if (e) sscanf(e, "%ld:%ld", &k, &j);
+	}
+	if (k > 0 && (count++ % k) == j)
+		stoGc();
+}
+#endif
+
 MostAlignedType *
 stoAlloc(unsigned code, ULong nbytes)
 {
@@ -3300,6 +3320,10 @@ stoAlloc(unsigned code, ULong nbytes)
 
 	if (!stoIsInit && !stoInit())
 		return (*stoError)(StoErr_CantBuild);
+
+#ifdef ALDOR_VERIF
+	stoVerifMaybeGc();
+#endif
 
 #ifdef USE_MEMORY_CLIMATE
 	code = getMemoryClimate();
